@@ -379,3 +379,109 @@ def helper_closure(idx: Index, func: Func, depth: int = 1) -> List[Func]:
 
 def closure_text(idx: Index, func: Func, limit: int = 40000) -> str:
   return '\n'.join(A.unparse(f.node, limit) for f in helper_closure(idx, func))
+
+
+# ---------------------------------------------------------------------------
+# Optional numbers / ids are tested with `is None`, never by truth value
+# ---------------------------------------------------------------------------
+def _optional_scalar_annotation(ann: str) -> bool:
+  """Optional[int|float] / Union[None, int, str] style annotations: values for
+  which 0 / 0.0 / '' are legitimate and different from "absent"."""
+  if not ann:
+    return False
+  t = ann.replace(' ', '')
+  if any(x in t for x in ('Callable', 'List[', 'Dict[', 'Set[', 'Sequence', 'Tuple[', 'Iterable', 'bool',
+                          'Mapping', 'Iterator')):
+    return False
+  return ('Optional[' in t or 'None' in t) and any(x in t for x in ('int', 'float'))
+
+
+def _optional_scalar_fields(idx: Index, cls) -> Set[str]:
+  """Field names of a class (MRO inside the repository) that hold an optional
+  number: annotated class attributes and `pg.members` / `pg.functor` style
+  declarations `('name', pg.typing.Int(...).noneable() | Int(default=None))`."""
+  out: Set[str] = set()
+  for k in idx.mro(cls.fq):
+    c = idx.find_class(k)
+    if c is None:
+      continue
+    for s in c.node.body:
+      if isinstance(s, ast.AnnAssign) and isinstance(s.target, ast.Name) and \
+          _optional_scalar_annotation(A.unparse(s.annotation, 200)):
+        out.add(s.target.id)
+    for d in c.node.decorator_list:
+      for t in ast.walk(d):
+        if isinstance(t, ast.Tuple) and len(t.elts) >= 2 and A.const_str(t.elts[0]):
+          spec = A.unparse(t.elts[1], 300)
+          import re as _re
+          if _re.match(r'^(\w+\.)*(Int|Float)\(', spec) and ('noneable' in spec or 'default=None' in spec):
+            out.add(A.const_str(t.elts[0]))
+  return out
+
+
+def optional_truthiness_hits(idx: Index, relfiles: Sequence[str]):
+  """[(func, lineno, expression, annotation/why)]: an optional number (a
+  parameter annotated Optional[int|float]/Union[None,int,str], or such a field
+  of the enclosing class read as self.<field>) used in boolean context
+  (`if x`, `not x`, `x or d`, `x and ...`, conditional expression, filter)."""
+  def truth_exprs(fn):
+    out = []
+    def truth(e, line):
+      if isinstance(e, ast.Name):
+        out.append((e.id, line, 'name'))
+      elif isinstance(e, ast.Attribute) and isinstance(e.value, ast.Name) and e.value.id == 'self':
+        out.append((e.attr, line, 'attr'))
+      elif isinstance(e, ast.UnaryOp) and isinstance(e.op, ast.Not):
+        truth(e.operand, line)
+      elif isinstance(e, ast.BoolOp):
+        for v in e.values:
+          truth(v, line)
+    for n in A.walk_local(fn):
+      if isinstance(n, (ast.If, ast.While, ast.IfExp, ast.Assert)):
+        truth(n.test, n.lineno)
+      elif isinstance(n, ast.BoolOp):
+        for v in (n.values[:-1] if isinstance(n.op, ast.Or) else n.values):
+          truth(v, n.lineno)
+      elif isinstance(n, ast.UnaryOp) and isinstance(n.op, ast.Not):
+        truth(n.operand, n.lineno)
+      elif isinstance(n, ast.comprehension):
+        for c in n.ifs:
+          truth(c, getattr(c, 'lineno', 0))
+    return out
+  hits = []
+  nfuncs = 0
+  for rel in relfiles:
+    m = idx.by_relpath.get(rel)
+    if m is None:
+      continue
+    for f in m.funcs.values():
+      nfuncs += 1
+      a = f.node.args
+      ps = {p.arg: (A.unparse(p.annotation, 200) if p.annotation is not None else '')
+            for p in a.posonlyargs + a.args + a.kwonlyargs}
+      cls = idx.enclosing_class(f)
+      fields = _optional_scalar_fields(idx, cls) if cls is not None else set()
+      seen = set()
+      for nm, line, kind in truth_exprs(f.node):
+        if (nm, line) in seen:
+          continue
+        seen.add((nm, line))
+        if kind == 'name' and _optional_scalar_annotation(ps.get(nm, '')):
+          hits.append((f, line, nm, ps[nm]))
+        elif kind == 'attr' and nm in fields:
+          hits.append((f, line, 'self.' + nm, 'optional numeric field'))
+  return hits, nfuncs
+
+
+def optional_truthiness_obligations(ctx, rule_id: str, relfiles: Sequence[str], why: str):
+  """One obligation per file: no optional number is used in boolean context."""
+  idx = ctx.index
+  for rel in relfiles:
+    if rel not in idx.by_relpath:
+      continue
+    hits, nf = optional_truthiness_hits(idx, [rel])
+    ctx.ob(rule_id, rel, not hits,
+           'an optional number / id (Optional[int|float], noneable Int/Float field) is tested with `is None`, '
+           'never by its truth value: ' + why, rel + ':1',
+           '; '.join(f'{f.qualname}: `{e}` in boolean context (line {l})' for f, l, e, _ in hits) +
+           ' - the legitimate value 0 is treated as "not given"')
